@@ -38,7 +38,7 @@ REGISTRATION = {
             "F23 (defrag before any Put).",
 }
 
-MODULES = ["OllamaVerif.Properties.C06"]
+MODULES = ["OllamaVerif.Properties.C06", "OllamaVerif.Tie.C06"]
 THEOREMS = [
     "OllamaVerif.C06.mask_exact",
     "OllamaVerif.C06.mask_exact_all_histories",
@@ -62,6 +62,11 @@ THEOREMS = [
     "OllamaVerif.C06.reserve_inv",
     "OllamaVerif.C06.reserve_covers",
     "OllamaVerif.C06.reserve_mask_exact",
+    "OllamaVerif.Tie.C06.mask_table",
+    "OllamaVerif.Tie.C06.evict_table",
+    "OllamaVerif.Tie.C06.remove_table",
+    "OllamaVerif.Tie.C06.copy_table",
+    "OllamaVerif.Tie.C06.place_table",
     "OllamaVerif.C06.startForward_put_abs_perm",
     "OllamaVerif.C06.forward_abs_perm",
     "OllamaVerif.C06.slideSeq_abs",
@@ -91,7 +96,8 @@ THEOREMS = [
     "OllamaVerif.C06.F23_defrag_without_layers",
     "OllamaVerif.C06.F3_remove_minus_one_is_not_infinity",
 ]
-OVERLAY = {"kvcache/zz_verif_c06_test.go": "kvcache/zz_verif_c06_test.go"}
+OVERLAY = {"kvcache/zz_verif_c06_test.go": "kvcache/zz_verif_c06_test.go",
+           "kvcache/zz_verif_c06_tables_test.go": "kvcache/zz_verif_c06_tables_test.go"}
 
 
 def matcher(finding, failure):
@@ -102,17 +108,67 @@ BIT_NAMES = {1: "F14 (defrag coalescing)", 2: "F15b (CanResume coverage)", 4: "F
              8: "C07 F-SWA-capacity (sliding-window cache sized per sequence)"}
 
 
+def lean_tables(lines, variant):
+    """tables.txt (written by TestVerifC06Tables: the real code executed over small finite domains) ->
+    Generated/C06_Tables.lean"""
+    rows = {"mask": [], "evict": [], "remove": [], "copy": [], "place": []}
+    for ln in lines:
+        kind, _, rest = ln.strip().partition(" ")
+        if kind not in rows:
+            continue
+        if kind in ("copy", "place"):
+            lst = rest[rest.index("["):rest.index("]") + 1]
+            f = (rest[:rest.index("[")] + " @ " + rest[rest.index("]") + 1:]).split()
+            f = [lst if x == "@" else x for x in f]
+        else:
+            f = rest.split()
+        f = [("(" + x + ")") if x.startswith("-") else x for x in f]
+        rows[kind].append("(" + ", ".join(f) + ")")
+
+    def lst(name, ty, doc):
+        body = ",\n  ".join(rows[name])
+        return f"/-- {doc} -/\ndef {name}Rows : List ({ty}) := [\n  {body}]\n"
+
+    return ("-- GENERATED by vlib/checks/c06.py from the tree under test (TestVerifC06Tables); do not edit\n"
+            "namespace OllamaVerif.Generated.C06\n\n"
+            f"/-- model variant bits probed from the tree (1 F14, 2 F15b, 4 F23, 8 SWA capacity per sequence) -/\n"
+            f"def variantBits : Nat := {variant}\n\n"
+            + lst("mask", "Nat × Bool × Bool × Int × Int × Bool",
+                  "window (0 = none), the cell is owned by the query's sequence, causal test enabled, cell position, "
+                  "query position ↦ mask element is 0 (exposed)")
+            + lst("evict", "Nat × Int × Int × Bool",
+                  "window, cell position, position of the one-token batch of the same sequence ↦ the cell was evicted")
+            + lst("remove", "Int × Int × Int × Bool × Nat × Int",
+                  "Remove(0, begin, end (−1 = MaxInt32)) on one cell at the position, shared with another sequence ↦ "
+                  "outcome (0 keep, 1 drop, 2 refuse, 3 shift), position afterwards")
+            + lst("copy", "Int × Int × Bool × Bool × List Nat",
+                  "CopyPrefix(0, 1, len) on one cell at the position owned by src / dst (neither: by sequence 2) ↦ owners afterwards")
+            + lst("place", "List Bool × Nat × Nat",
+                  "occupancy of 5 cells, batch size ↦ curLoc of the accepted batch, 100 = ErrKvCacheFull, 101 = panic")
+            + "\nend OllamaVerif.Generated.C06\n")
+
+
 def probe_variant(ctx):
     """Tie 1: run the real code on the three witness histories and derive which repairs the tree
-    carries; the oracle is asked for exactly that model variant.  An explicit VERIF_C06_VARIANT wins."""
-    if "VERIF_C06_VARIANT" in os.environ:
-        return VARIANT, "env"
-    rc, out, outdir = ctx.go_test("./kvcache/", OVERLAY, "^TestVerifC06Probe$")
+    carries; the oracle is asked for exactly that model variant.  An explicit VERIF_C06_VARIANT wins.
+    The same `go test` run executes the real code over the finite domains of the cell-level decisions
+    (tables.txt -> Generated/C06_Tables.lean, consumed by Tie/C06.lean with `decide`)."""
+    rc, out, outdir = ctx.go_test("./kvcache/", OVERLAY, "^TestVerifC06(Probe|Tables)$")
     try:
-        return int(open(os.path.join(outdir, "variant.txt")).read().strip()), "probed"
+        variant, how = int(open(os.path.join(outdir, "variant.txt")).read().strip()), "probed"
     except Exception:
         ctx.notes.append("variant probe failed; falling back to the registered constant")
-        return VARIANT, "constant"
+        variant, how = VARIANT, "constant"
+    if "VERIF_C06_VARIANT" in os.environ:
+        variant, how = VARIANT, "env"
+    try:
+        lines = open(os.path.join(outdir, "tables.txt")).read().splitlines()
+        core.write_generated("OllamaVerif/Generated/C06_Tables.lean", lean_tables(lines, variant))
+        ctx.coverage["tie_table_rows"] = len(lines)
+    except Exception as ex:
+        ctx.violation("tie-tables-missing", "", f"TestVerifC06Tables produced no tables.txt ({ex}); go test said: {out[-800:]}",
+                      no_input=True)
+    return variant, how
 
 
 # Branches of the model the theorems talk about; each must have been taken by the REAL code in this run
@@ -144,8 +200,8 @@ def coverage_required(ctx):
 
 
 def run(ctx):
-    ctx.lean_check(MODULES, THEOREMS)
     variant, how = probe_variant(ctx)
+    ctx.lean_check(MODULES, THEOREMS)
     ctx.coverage["model_variant"] = variant
     ctx.coverage["model_variant_source"] = how
     ctx.coverage["model_variant_expected"] = VARIANT
